@@ -57,6 +57,7 @@ def parseCfg (s : String) : Option Cfg := do
       c := { c with umaps := c.umaps ++ [(← st.toNat?, ← sz.toNat?, ← off.toNat?, ← pe.toNat?, ← unhex nm, ← unhex id)] }
     | ["auxv", a, b, cc, d] => c := { c with auxv := some (← a.toNat?, ← b.toNat?, ← cc.toNat?, ← d.toNat?) }
     | ["reused", n] => c := { c with reused := ← n.toNat? }
+    | ["prefail", _] => pure ()
     | _ => none
   some c
 
